@@ -1397,7 +1397,7 @@ let ghost mut g_args = *args; let ghost mut g_len = len; let ghost mut g_res = r
             ensures
                 g_res == res@,
                 step(g_args, *args),
-                exists|l2: usize| opt_rel(self.inner, g_args, g_len, self.catch, Ok::<Option<T>, Error>(None), *args, l2),
+                exists|l2: usize| opt_rel(self.inner, g_args, g_len, self.catch, Ok::<Option<T>, Error>(None), *args, l2), // #loop_ends_only_when_a_round_yields_nothing
             decreases len,
 //@@ insert after 1 `res.push(val);`
 proof {
@@ -1449,7 +1449,7 @@ let ghost mut g_args = *args; let ghost mut g_len = len; let ghost mut g_vals = 
                 res as int + g_len as int <= usize::MAX as int,
             ensures
                 step(g_args, *args),
-                (exists|l2: usize| opt_rel(self.inner, g_args, g_len, false, Ok::<Option<T>, Error>(None), *args, l2)) || (res > 0 && g_args == *args),
+                (exists|l2: usize| opt_rel(self.inner, g_args, g_len, false, Ok::<Option<T>, Error>(None), *args, l2)) || (res > 0 && g_args == *args), // #loop_ends_only_when_a_round_yields_nothing_or_consumes_nothing
             decreases len,
 //@@ insert before 1 `res += 1;`
 proof {
@@ -1502,7 +1502,7 @@ let ghost mut g_args = *args; let ghost mut g_len = len; let ghost mut g_vals = 
                 g_vals.len() > 0 ==> last == Some(g_vals.last()),
             ensures
                 step(g_args, *args),
-                (exists|l2: usize| opt_rel(self.inner, g_args, g_len, false, Ok::<Option<T>, Error>(None), *args, l2)) || (g_vals.len() > 0 && g_args == *args),
+                (exists|l2: usize| opt_rel(self.inner, g_args, g_len, false, Ok::<Option<T>, Error>(None), *args, l2)) || (g_vals.len() > 0 && g_args == *args), // #loop_ends_only_when_a_round_yields_nothing_or_consumes_nothing
             decreases len,
 //@@ insert after 1 `last = Some(val);`
 proof {
@@ -1995,8 +1995,8 @@ proof {
                 invariant_except_break
                     this_arg.wf(), this_arg.items == args.items, this_arg.item_state == args.item_state,
                     this_arg.scope.start == start, this_arg.comp_eq(*args),
-                    run_then_holes(*args, start as int, this_arg.scope.end as int),
-                    forall|i: int| original_scope.end <= i < this_arg.scope.end ==> !present(#[trigger] args.item_state[i]),
+                    run_then_holes(*args, start as int, this_arg.scope.end as int), // #attempted_block_is_a_run_of_available_items
+                    forall|i: int| original_scope.end <= i < this_arg.scope.end ==> !present(#[trigger] args.item_state[i]), // #block_never_reaches_available_items_beyond_the_scope
                     g_retried ==> this_arg.scope.end < args.item_state.len() && present(args.item_state[this_arg.scope.end as int]),
                 invariant
                     self.pwf(),
@@ -2004,7 +2004,7 @@ proof {
                     best_args.wf(), step(*old(args), best_args),
                     verif_it_1.args == *args, verif_it_1.args.scope.start <= verif_it_1.cur, 1 <= verif_it_1.width <= 2,
                     args.scope.start <= start < args.scope.end,
-                    before == count_present(args.item_state@, start as int, original_scope.end as int),
+                    before == count_present(args.item_state@, start as int, original_scope.end as int), // #before_counts_the_items_up_to_the_original_scope_end
                 decreases (if g_retried { 0int } else { 1int }), this_arg.scope.end,
 //@@ insert before 1 `match self.inner.eval(&mut this_arg) {`
 let ghost g_before_eval = this_arg;
